@@ -6,6 +6,7 @@ mod c07;
 mod c10;
 mod c12;
 mod c13;
+mod c15;
 mod c16;
 mod doc;
 mod gen;
@@ -84,6 +85,21 @@ fn main() {
         c12::child(&args[2], args[3].parse().unwrap(), args[4].parse().unwrap());
         return;
     }
+    if args.len() == 4 && args[1] == "c15dbg" {
+        // first differing item between a CLI output file and the builder output for default settings
+        let t = std::fs::read_to_string(&args[2]).unwrap();
+        let a = c15::norm_items(&syn::parse_file(&t).unwrap().items);
+        let b = c15::norm_items(&syn::parse_file(&std::fs::read_to_string(&args[3]).unwrap()).unwrap().items);
+        for (x, y) in a.iter().zip(b.iter()) {
+            if x != y {
+                let n = x.chars().zip(y.chars()).take_while(|(p, q)| p == q).count();
+                println!("DIFF at {}:\n{}\n----\n{}", n, &x[n.saturating_sub(80)..(n + 120).min(x.len())], &y[n.saturating_sub(80)..(n + 120).min(y.len())]);
+                break;
+            }
+        }
+        println!("{} {}", a.len(), b.len());
+        return;
+    }
     if args.len() < 4 {
         eprintln!("usage: vdrive <family> <cases.ndjson> <events.ndjson> [extra...]");
         std::process::exit(2);
@@ -94,6 +110,8 @@ fn main() {
         "c10" => c10::run(&args[2], &args[3]),
         "c12" => c12::run(&args[2], &args[3], args.get(4).and_then(|n| n.parse().ok()).unwrap_or(3)),
         "c13" => c13::run(&args[2], &args[3]),
+        "c15" => c15::run(&args[2], &args[3], &args[4], &args[5]),
+        "c15cmp" => c15::cmp(&args[2], &args[3], &args[4], &args[5]),
         "c16" => c16::run(&args[2], &args[3]),
         "gen" => gen::run(&args[4], &args[2], &args[3], &args[5], args[6].parse().unwrap()),
         _ => {
